@@ -1961,7 +1961,10 @@ class Forall(Statement):
 
         line0 = line[1:i]
         line = line[i + 1 :].lstrip()
-        stmt = GeneralAssignment(self, self.item.copy(line, True))
+        newitem = self.item.copy(line, True)
+        # The label belongs to the FORALL statement, not to the assignment.
+        newitem.label = None
+        stmt = GeneralAssignment(self, newitem)
         if stmt.isvalid:
             self.content = [stmt]
         else:
@@ -2468,6 +2471,8 @@ class Where(Statement):
         self.expr = self.item.apply_map(line[1:i].strip())
         line = line[i + 1 :].lstrip()
         newitem = self.item.copy(line)
+        # The label belongs to the WHERE statement, not to the assignment.
+        newitem.label = None
         cls = Assignment
         if cls.match(line):
             stmt = cls(self, newitem)
